@@ -8,7 +8,10 @@ Import ListNotations.
 Local Open Scope Z_scope.
 
 (* composing: rtosc_bundle over well-formed elements yields exactly the bundle
-   layout (recognised magic, time tag, length-prefixed elements) *)
+   layout (recognised magic, time tag, length-prefixed elements).  Each element
+   pointer designates [elem_mem e junk]: the element, then - only if it is a
+   nested bundle - a zero word, then arbitrary bytes (a message element is
+   self-delimiting whatever follows it in memory) *)
 Theorem C08_compose : forall buf ttag es junks,
   Forall elem_wf es -> length junks = length es ->
   let B := elem_bytes (Bun ttag es) in
@@ -39,11 +42,12 @@ Theorem C08_total : forall ttag es,
   = Ok (zlen (elem_bytes (Bun ttag es))).
 Proof. exact message_length_bundle_exact. Qed.
 
-(* ... also when measured without a bound, as rtosc_bundle does for nested
-   elements (a zero word follows the element in memory) *)
+(* ... also when measured without a bound, as rtosc_bundle does for its
+   elements: a message whatever follows it, a nested bundle when a zero word
+   follows it in memory ([elem_tail]) *)
 Theorem C08_element_length : forall e rest,
   elem_wf e ->
-  message_length (elem_bytes e ++ z4 ++ rest) SIZE_MAX = Ok (zlen (elem_bytes e)).
+  message_length (elem_bytes e ++ elem_tail e ++ rest) SIZE_MAX = Ok (zlen (elem_bytes e)).
 Proof. exact message_length_elem. Qed.
 
 (* subtree_serialize (src/cpp/subtree-serialize.cpp) builds the bundle of the
